@@ -1,7 +1,7 @@
 (* C01 - Shell forwards every port event to its counterpart exactly once, intact. *)
 From Coq Require Import List NArith Bool String.
 From Dznpy Require Import Base.PyStr Base.Result Model.TextGen Model.Scoping Model.PortSelection Model.CppGen Model.Ast
-  Model.SupportFiles Sem.ShellSem Sem.Exec Model.Builder Proofs.SemFacts Proofs.ShellPlanFacts.
+  Model.SupportFiles Sem.ShellSem Sem.Exec Model.Builder Proofs.SemFacts Proofs.ShellPlanFacts Proofs.HygieneFacts.
 Import ListNotations.
 
 (* The statements below are the ones the builder model renders into the constructor text (Model/Builder.v: in_stmts,
@@ -93,6 +93,53 @@ Theorem C01_requires_out_event_once : forall sc pp rp L, NoDup (map fst (comp_in
 Proof. intros sc pp rp L H2. exact (requires_mts_out_delivered sc pp rp L H2). Qed.
 Print Assumptions C01_requires_out_event_once.
 
+(* END TO END, from what Dezyne guarantees about names only (hygienic: the ports of the component have distinct names, the
+   events of an interface have distinct names): for every plan the constructor program exists for, every event of every
+   multi-threaded exposed port arrives exactly once at the same-named event of the same-named port on the other side. The
+   hypotheses of the four theorems above about the slot lists are all derived (Proofs/HygieneFacts.v). *)
+Theorem C01_provides_in_event_end_to_end : forall sc, (forall s vs, List.length (snd (sc s vs)) = List.length vs) ->
+  forall fc pp rp L, ctor_assigns fc pp rp = Ok L -> hygienic pp rp ->
+  forall p e vs, In p pp -> is_plain_mts p = true -> In e (events_of EIn p) ->
+  NoDup (map f_name (e_formals e)) -> List.length vs = List.length (e_formals e) ->
+  exists ps, formal_params fc (zp_itf (cp_dzn p)) true e = Ok ps /\
+  call sc 2 (world0 pp rp L) (sl (Bnd (cp_name p)) DIn e) vs Caller =
+  ({| w_slots := final_slots L pp rp; w_queue := [];
+      w_trace := [{| r_who := ENC; r_slot := sl (Enc (cp_name p)) DIn e; r_args := vs; r_ctx := Dispatcher |}] |},
+   Done (fst (sc (sl (Enc (cp_name p)) DIn e) vs))
+        (write_back (map f_name (in_formals e)) ps vs (snd (sc (sl (Enc (cp_name p)) DIn e) vs)))).
+Proof. exact provides_in_event_end_to_end. Qed.
+Print Assumptions C01_provides_in_event_end_to_end.
+
+Theorem C01_provides_out_event_end_to_end : forall sc fc pp rp L, ctor_assigns fc pp rp = Ok L -> hygienic pp rp ->
+  forall p e vs c, In p pp -> is_plain_mts p = true -> In e (events_of EOut p) ->
+  call sc 2 (world0 pp rp L) (sl (Enc (cp_name p)) DOut e) vs c =
+  ({| w_slots := final_slots L pp rp; w_queue := [];
+      w_trace := [{| r_who := USER; r_slot := sl (Bnd (cp_name p)) DOut e; r_args := vs; r_ctx := c |}] |},
+   Done (fst (sc (sl (Bnd (cp_name p)) DOut e) vs)) (snd (sc (sl (Bnd (cp_name p)) DOut e) vs))).
+Proof. exact provides_out_event_end_to_end. Qed.
+Print Assumptions C01_provides_out_event_end_to_end.
+
+Theorem C01_requires_in_event_end_to_end : forall sc fc pp rp L, ctor_assigns fc pp rp = Ok L -> hygienic pp rp ->
+  forall p e vs c, In p rp -> cp_is_mts p = true -> cp_is_mc p = false -> In e (events_of EIn p) ->
+  call sc 2 (world0 pp rp L) (sl (Enc (cp_name p)) DIn e) vs c =
+  ({| w_slots := final_slots L pp rp; w_queue := [];
+      w_trace := [{| r_who := USER; r_slot := sl (Bnd (cp_name p)) DIn e; r_args := vs; r_ctx := c |}] |},
+   Done (fst (sc (sl (Bnd (cp_name p)) DIn e) vs)) (snd (sc (sl (Bnd (cp_name p)) DIn e) vs))).
+Proof. exact requires_in_event_end_to_end. Qed.
+Print Assumptions C01_requires_in_event_end_to_end.
+
+Theorem C01_requires_out_event_end_to_end : forall sc fc pp rp L, ctor_assigns fc pp rp = Ok L -> hygienic pp rp ->
+  forall p e vs c, In p rp -> cp_is_mts p = true -> In e (events_of EOut p) ->
+  NoDup (map f_name (e_formals e)) -> Forall (fun f => f_dir f = FIn) (e_formals e) -> List.length vs = List.length (e_formals e) ->
+  exists w, call sc 1 (world0 pp rp L) (sl (Bnd (cp_name p)) DOut e) vs c = (w, Done 0%N vs) /\
+            w_trace w = [] /\ List.length (w_queue w) = 1%nat /\
+            run_head sc 1 w =
+            ({| w_slots := final_slots L pp rp; w_queue := [];
+                w_trace := [{| r_who := ENC; r_slot := sl (Enc (cp_name p)) DOut e; r_args := vs; r_ctx := Dispatcher |}] |},
+             Done (fst (sc (sl (Enc (cp_name p)) DOut e) vs)) (snd (sc (sl (Enc (cp_name p)) DOut e) vs))).
+Proof. exact requires_out_event_end_to_end. Qed.
+Print Assumptions C01_requires_out_event_end_to_end.
+
 (* an event whose slot was left unbound is reported, never silently dropped or misrouted *)
 Theorem C01_unbound_is_reported : forall sc w s vs c, lookup (w_slots w) s = Unset -> call sc 1 w s vs c = (w, Unbound s).
 Proof. exact unbound_reported. Qed.
@@ -122,6 +169,13 @@ Example demo_hypotheses :
   nodup_slots (map fst L_demo) = true /\ nodup_slots (map fst (comp_init pp_demo rp_demo)) = true /\
   nodup_slots (map fst (user_binds pp_demo rp_demo)) = true /\ List.length L_demo = 4%nat.
 Proof. repeat split; vm_compute; reflexivity. Qed.
+
+Example demo_hygienic : hygienic pp_demo rp_demo.
+Proof.
+  split.
+  - cbn. repeat constructor; cbn; intuition discriminate.
+  - repeat constructor; cbn; intuition discriminate.
+Qed.
 
 Example demo_call :
   let w := fst (call sc_demo 2 (world0 pp_demo rp_demo L_demo) (sl (Bnd (L "api")) DIn ev_use) [1%N; 2%N] Caller) in
